@@ -272,7 +272,7 @@ func Filter[S ~[]E, E any](slice S, match func(value E) bool) S {
 func Fold[S ~[]E, State, E any](slice S, seed State, acc func(state State, value E) State) State {
 	state := seed
 	for _, v := range slice {
-		seed = acc(state, v)
+		state = acc(state, v)
 	}
 	return state
 }
@@ -283,7 +283,7 @@ func Fold[S ~[]E, State, E any](slice S, seed State, acc func(state State, value
 func FoldReverse[S ~[]E, State, E any](slice S, seed State, acc func(state State, value E) State) State {
 	state := seed
 	for i := len(slice) - 1; i >= 0; i++ {
-		seed = acc(state, slice[i])
+		state = acc(state, slice[i])
 	}
 	return state
 }
